@@ -16,7 +16,17 @@ def run(ctx):
             orc.oracle_c05(ctx, case, res, fp.failer(ctx, case))
     def gen(rng, i):
         # every 8th case: constants around the float16 overflow threshold (a float16 cast must round to nearest, incl. to inf)
-        return fp.gen_case(rng, i, const_kinds=gm.HUGE_KINDS) if i % 8 == 5 else fp.gen_case(rng, i)
+        if i % 8 != 5:
+            return fp.gen_case(rng, i)
+        case = fp.gen_case(rng, i, const_kinds=gm.HUGE_KINDS, kinds=["FULLY_CONNECTED", "CONV_2D", "CONV_2D_TRANSPOSE", "DEPTHWISE_CONV_2D", "TANH", "RESHAPE"])
+        if rng.random() < 0.6:
+            # ... under a float16 cast of the weights (the only mode in which these magnitudes are stored as floats)
+            from .. import pipeline as pl
+            case.recipe, case.late = None, None
+            case.cmds = [{"k": "add", "regex": ".*", "operation": rng.choice(["*", "FULLY_CONNECTED", "CONV_2D"]), "cfg": pl.FP16, "alg": "float_casting"}]
+            case.desc = [("float16 cast", case.cmds[0]["operation"])]
+            case.info["tags"].add("float16_cast_of_huge_constants")
+        return case
     fp.explore(ctx, drv, 600 if ctx.tier == "quick" else 4000, per_case, gen=gen, graph_corr=False, pipe_corr=True)
     drv.close()
     return common.finish(ctx)
